@@ -11,6 +11,7 @@ import (
 
 	"github.com/herohde/morlock/pkg/board"
 	"github.com/herohde/morlock/pkg/board/fen"
+	"github.com/herohde/morlock/pkg/eval"
 	"verif/harness/internal/out"
 	"verif/harness/internal/proj"
 )
@@ -23,6 +24,7 @@ type Flags struct {
 	Views bool // "views": every view of the position + codec round trip (C02 C06 C14)
 	Board bool // board programme events with full records (C02 C05 C07 C08 C14)
 	Prev  bool // re-read the previous position after each push (C02)
+	Deriv bool // "derived": capturers of every square, pins against king and queen (C06)
 }
 
 type G struct {
@@ -105,6 +107,12 @@ func (g *G) ViewsEvent(p *board.Position, turn board.Color, np, fm int) {
 	for s := 0; s < 64; s++ {
 		empty[s] = proj.B2I(p.IsEmpty(proj.FromSq(s)))
 	}
+	if p.IsChecked(turn) {
+		g.Count["view-check"]++
+		if p.IsCheckMate(turn) {
+			g.Count["view-mate"]++
+		}
+	}
 	str := fen.Encode(p, turn, np, fm)
 	ev := M{
 		"op": "views", "pos": proj.Position(p, turn), "np": np, "fm": fm,
@@ -123,6 +131,33 @@ func (g *G) ViewsEvent(p *board.Position, turn board.Color, np, fm int) {
 		ev["dec"] = M{"ok": true, "pos": proj.Position(dp, dt), "np": dnp, "fm": dfm, "reenc": fen.Encode(dp, dt, dnp, dfm)}
 	}
 	g.W.Emit(ev)
+}
+
+// DerivedEvent records the queries derived from the attack relation.
+func (g *G) DerivedEvent(p *board.Position, turn board.Color) {
+	caps := make([][][][]int, 2)
+	for c := board.ZeroColor; c < board.NumColors; c++ {
+		caps[c] = make([][][]int, 64)
+		for s := 0; s < 64; s++ {
+			list := [][]int{}
+			for _, pl := range eval.FindCapture(p, c, proj.FromSq(s)) {
+				list = append(list, []int{proj.Sq(pl.Square), proj.PieceCode(pl.Color, pl.Piece)})
+			}
+			caps[c][s] = list
+		}
+	}
+	var pins []M
+	for c := board.ZeroColor; c < board.NumColors; c++ {
+		for _, k := range []board.Piece{board.King, board.Queen, board.Rook} {
+			res := [][]int{}
+			for _, pin := range eval.FindPins(p, c, k) {
+				res = append(res, []int{proj.Sq(pin.Attacker), proj.Sq(pin.Pinned), proj.Sq(pin.Target)})
+				g.Count["pin"]++
+			}
+			pins = append(pins, M{"side": int(c), "kind": proj.Kind(k), "res": res})
+		}
+	}
+	g.W.Emit(M{"op": "derived", "pos": proj.Position(p, turn), "caps": caps, "pins": pins})
 }
 
 func kingSq(p *board.Position, c board.Color) int {
@@ -229,6 +264,9 @@ func (pr *Prog) positionEvents(l *Live) {
 	}
 	if pr.g.F.Views {
 		pr.g.ViewsEvent(l.B.Position(), l.B.Turn(), l.B.NoProgress(), l.B.FullMoves())
+	}
+	if pr.g.F.Deriv {
+		pr.g.DerivedEvent(l.B.Position(), l.B.Turn())
 	}
 }
 
